@@ -133,6 +133,19 @@ class AbsIndex(AbsValue):
         self.key = key
 
 
+class BoolFamily(AbsValue):
+    """[P(x) for x in L] over an abstract list: its conjunction and disjunction as formulas (for all() and any())."""
+
+    def __init__(self, forall, exists):
+        self.forall, self.exists = forall, exists
+
+    def abs_is_abstract_iterable(self):
+        return False
+
+    def abs_iter(self, I):
+        raise Unsupported("iteration over a family of truth values (only all()/any() are supported)")
+
+
 class AList(AbsValue, HeapObj):
     def __init__(self, I, sort, mem, dup, wrap, kind="list"):
         self.sort = sort
@@ -328,6 +341,11 @@ class AList(AbsValue, HeapObj):
             if self.sort != NameS:
                 raise Unsupported("map from terms to variables in comprehension")
             out_key, out_sort, out_wrap = val.attrs["_name"], NameS, I.u_wrap_var
+        elif isinstance(val, bool) or (z3.is_expr(val) and z3.is_bool(val)):
+            # a family of truth values: only all() / any() can consume it
+            v = z3.BoolVal(val) if isinstance(val, bool) else val
+            guard = z3.And(_b(src_mem(e0)), phi)
+            return BoolFamily(z3.ForAll([e0], z3.Implies(guard, v)), z3.Exists([e0], z3.And(guard, v)))
         else:
             raise Unsupported("comprehension over abstract list producing %r" % (val,))
         if z3.eq(out_key, e0):
